@@ -1371,7 +1371,14 @@ class Interp:
                 raise Unsupported("modifies target is not an object field")
             cur = obj.fields.get(target.attr, UNBOUND)
             if cur is UNBOUND:
-                raise Unsupported(f"modifies target {target.attr} has no current value")
+                # a field that does not exist yet (constructor contract on a fresh object): typed by the class's @shape
+                key = f"{obj.cls.__module__}:{obj.cls.__qualname__}"
+                shp = self.reg.shapes.get(key)
+                ftypes = shp() if shp is not None else {}
+                if target.attr not in ftypes:
+                    raise Unsupported(f"modifies target {target.attr} has no current value")
+                obj.fields[target.attr] = self.reg.make_symbolic(self, target.attr, ftypes[target.attr])
+                return
             obj.fields[target.attr] = self.fresh_like(cur, target.attr)
             return
         if isinstance(target, ast.Name):
